@@ -11,8 +11,11 @@ import (
 	"context"
 	"crypto/sha256"
 	"fmt"
+	"massnet.org/mass/zz_verif/vsync"
 	"os"
 	"path/filepath"
+	"regexp"
+	"runtime"
 	"sort"
 	"strings"
 	"sync"
@@ -171,7 +174,27 @@ type kSys struct {
 	prevState []string
 	issued    int
 	stopOp    *qsched.Op
+	// lock gates (scenarios with LockGates): every acquisition of the state lock by an operation goroutine is a
+	// scheduling point "lock:<operation>/<n>#<k>:<Lock|RLock>"
+	gmu    sync.Mutex
+	opOf   map[string]string // goroutine id -> operation instance
+	lockN  map[string]int
+	gating bool
 }
+
+var kGoidRe = regexp.MustCompile(`^goroutine (\d+) `)
+
+func kGoid() string {
+	buf := make([]byte, 64)
+	buf = buf[:runtime.Stack(buf, false)]
+	if m := kGoidRe.FindSubmatch(buf); m != nil {
+		return string(m[1])
+	}
+	return ""
+}
+
+// kLockGates: set before kNew by the scenario runner.
+var kLockGates bool
 
 var kLogOnce sync.Once
 
@@ -179,7 +202,24 @@ func kNew(initial string, chanCap int) *kSys {
 	kLogOnce.Do(func() {
 		logging.Init(filepath.Join(os.Getenv("VERIF_SCRATCH"), "klogs"), "k", "fatal", 1, true)
 	})
-	k := &kSys{s: qsched.New(), sid: map[string]int{}}
+	k := &kSys{s: qsched.New(), sid: map[string]int{}, opOf: map[string]string{}, lockN: map[string]int{}, gating: kLockGates}
+	if k.gating {
+		vsync.SetHook(func(kind string) {
+			id := kGoid()
+			k.gmu.Lock()
+			name, ok := k.opOf[id]
+			n := k.lockN[id]
+			if ok {
+				k.lockN[id] = n + 1
+			}
+			k.gmu.Unlock()
+			if ok {
+				k.s.Gate(fmt.Sprintf("lock:%s#%d:%s", name, n, kind))
+			}
+		})
+	} else {
+		vsync.SetHook(nil)
+	}
 	pool, err := ants.NewPool(4)
 	if err != nil {
 		vk.Fatalf("ants pool: %v", err)
@@ -243,8 +283,15 @@ func (k *kSys) quiesce() []qsched.GoroutineInfo {
 }
 
 func (k *kSys) close() {
-	// tear down: let everything run out
-	k.s.Deactivate()
+	// tear down: let everything run out. Calls parked at a lock gate stay parked until the plotter has exited
+	// (teardown is free-running; it must not create interleavings of its own between calls and the plotter).
+	staged := k.gating && len(k.s.Parked()) > 0
+	if staged {
+		k.s.Open(func(name string) bool { return !strings.HasPrefix(name, "lock:") })
+	} else {
+		k.s.Deactivate()
+	}
+	defer k.s.Deactivate()
 	abortPlots := func() {
 		for _, d := range k.db {
 			d.mu.Lock()
@@ -293,6 +340,7 @@ func (k *kSys) close() {
 			}
 		}
 	}
+	k.s.Deactivate()
 	for i := 0; i < 300 && k.inFlight() > 0; i++ {
 		time.Sleep(time.Millisecond)
 	}
@@ -383,6 +431,22 @@ func (k *kSys) do(a kAction) []qsched.GoroutineInfo {
 					k.stopped[i] = false
 				}
 			}
+		}
+		inst := fmt.Sprintf("%s/%d", a.String(), k.issued)
+		inner := fn
+		fn = func() (interface{}, error) {
+			if k.gating {
+				id := kGoid()
+				k.gmu.Lock()
+				k.opOf[id] = inst
+				k.gmu.Unlock()
+				defer func() {
+					k.gmu.Lock()
+					delete(k.opOf, id)
+					k.gmu.Unlock()
+				}()
+			}
+			return inner()
 		}
 		k.ops = append(k.ops, k.s.Start(a.String(), fn))
 		k.opDesc = append(k.opDesc, a.String())
